@@ -3,6 +3,8 @@
 package main
 
 import (
+	"strconv"
+	"encoding/hex"
 	"bufio"
 	"bytes"
 	"database/sql"
@@ -64,7 +66,32 @@ func srvOp(rnd *rand.Rand, nkeys int) wop {
 	same := func(text string, f func([]string) string) func([]string) (string, string) {
 		return func(t []string) (string, string) { return text, f(t) }
 	}
-	switch rnd.Intn(14) {
+	// a bulk reply that must read as a float (ZINCRBY, ZSCORE, INCRBYFLOAT write through redis.WriteFloat)
+	floatReply := func(t []string) string {
+		if len(t) == 1 && t[0] == "_" {
+			return "err notfound"
+		}
+		if len(t) == 1 && strings.HasPrefix(t[0], "$") {
+			if raw, err := hex.DecodeString(strings.TrimPrefix(t[0][1:], "x")); err == nil {
+				if f, err := strconv.ParseFloat(string(raw), 64); err == nil {
+					return "ok s:" + dy(f)
+				}
+			}
+		}
+		return "err sql:other " + strings.Join(t, "_")
+	}
+	switch rnd.Intn(17) {
+	case 14:
+		d := []float64{1.5, 0.25, 1000.125, 3}[rnd.Intn(4)]
+		text := fmt.Sprintf("zset.Incr %s %s %s", hxs("z"+k), hxs(el), dy(d))
+		return wop{text, []string{"ZINCRBY", "z" + k, strconv.FormatFloat(d, 'f', -1, 64), el}, same(text, floatReply)}
+	case 15:
+		text := "zset.GetScore " + hxs("z"+k) + " " + hxs(el)
+		return wop{text, []string{"ZSCORE", "z" + k, el}, same(text, floatReply)}
+	case 16:
+		d := []float64{0.5, 2.25, 1234.0625}[rnd.Intn(3)]
+		text := fmt.Sprintf("str.IncrFloat %s %s", hxs("f"+k), dy(d))
+		return wop{text, []string{"INCRBYFLOAT", "f" + k, strconv.FormatFloat(d, 'f', -1, 64)}, same(text, floatReply)}
 	case 0, 1:
 		d := 1 + rnd.Intn(3)
 		text := fmt.Sprintf("str.Incr %s %d", hxs("n"+k), d)
@@ -188,6 +215,7 @@ func srvconcMain() {
 	seed := flag.Int64("seed", 1, "PRNG seed")
 	bin := flag.String("bin", "", "path of the redka server binary built from the tree")
 	rounds := flag.Int("rounds", 30, "rounds")
+	hammer := flag.Int("hammer", 0, "instead of the rounds: this many requests per client on PRIVATE keys, every reply determined by the client's own history")
 	flag.Parse()
 	out = bufio.NewWriterSize(os.Stdout, 1<<20)
 	defer out.Flush()
@@ -199,6 +227,10 @@ func srvconcMain() {
 	defer os.RemoveAll(dir)
 	rnd := rand.New(rand.NewSource(*seed))
 	fmt.Fprintf(out, "# trace 0 conc server\n")
+	if *hammer > 0 {
+		srvHammer(*bin, dir, *hammer)
+		return
+	}
 	for r := 0; r < *rounds; r++ {
 		sock := filepath.Join(dir, fmt.Sprintf("s%d.sock", r))
 		dbFile := filepath.Join(dir, fmt.Sprintf("d%d.db", r))
@@ -371,4 +403,77 @@ func srvRound(rnd *rand.Rand, sock, dbFile string) bool {
 	c0.Close()
 	fmt.Fprintf(out, "CONC %d %d server | %s | %s | %s\n", seq, nowMs(), pre.render(ident), strings.Join(parts, " ;; "), post.render(ident))
 	return true
+}
+
+
+// srvHammer: six clients of one server, each working on keys no other client touches, in tight loops; every
+// reply is determined by the client's own history (a running float total, a counter, a list length), so a
+// reply that differs was produced from another connection's data: state shared between connections.
+func srvHammer(bin, dir string, n int) {
+	sock := filepath.Join(dir, "h.sock")
+	dbFile := filepath.Join(dir, "h.db")
+	cmd := exec.Command(bin, "-s", sock, dbFile)
+	cmd.Stdout, cmd.Stderr = io.Discard, io.Discard
+	if err := cmd.Start(); err != nil {
+		fmt.Fprintln(os.Stderr, "srvconc: start server:", err)
+		os.Exit(2)
+	}
+	defer func() { cmd.Process.Kill(); cmd.Wait() }()
+	const clients = 6
+	var mu sync.Mutex
+	mismatches, total := 0, 0
+	first := ""
+	var wg sync.WaitGroup
+	for c := 0; c < clients; c++ {
+		wg.Add(1)
+		go func(c int) {
+			defer wg.Done()
+			conn, rd := dial(sock)
+			defer conn.Close()
+			z, f, nk, l := fmt.Sprintf("z%d", c), fmt.Sprintf("f%d", c), fmt.Sprintf("n%d", c), fmt.Sprintf("l%d", c)
+			step := float64(c) + 1.125 // exact in binary, different per client
+			zt, ft := 0.0, 0.0
+			cnt, ln := 0, 0
+			check := func(req []string, want string) {
+				toks, err := roundTrip(conn, rd, req)
+				got := strings.Join(toks, " ")
+				if err != nil {
+					got = "error: " + err.Error()
+				}
+				mu.Lock()
+				total++
+				if got != want {
+					mismatches++
+					if first == "" {
+						first = fmt.Sprintf("client %d %v: got %s want %s", c, req, got, want)
+					}
+				}
+				mu.Unlock()
+			}
+			fl := func(x float64) string { return "$" + hxs(strconv.FormatFloat(x, 'f', -1, 64)) }
+			for i := 0; i < n; i++ {
+				switch i % 6 {
+				case 0:
+					zt += step
+					check([]string{"ZINCRBY", z, strconv.FormatFloat(step, 'f', -1, 64), "m"}, fl(zt))
+				case 1:
+					check([]string{"ZSCORE", z, "m"}, fl(zt))
+				case 2:
+					ft += step
+					check([]string{"INCRBYFLOAT", f, strconv.FormatFloat(step, 'f', -1, 64)}, fl(ft))
+				case 3:
+					cnt += c + 1
+					check([]string{"INCRBY", nk, fmt.Sprint(c + 1)}, fmt.Sprintf(":%d", cnt))
+				case 4:
+					ln++
+					check([]string{"RPUSH", l, fmt.Sprintf("e%d", c)}, fmt.Sprintf(":%d", ln))
+				default:
+					check([]string{"GET", nk}, "$"+hxs(fmt.Sprint(cnt)))
+				}
+			}
+		}(c)
+	}
+	wg.Wait()
+	seq++
+	fmt.Fprintf(out, "TICK %d %d | hammer | clients=%d requests=%d mismatches=%d first=%q TK=%s\n", seq, nowMs(), clients, total, mismatches, first, b01(mismatches == 0))
 }
